@@ -33,6 +33,15 @@ def impl_iprange_to_cidrs(a, b):
         assert alt == out, "IPRange.cidrs() differs from iprange_to_cidrs: %r vs %r" % (alt, out)
         alt2 = _nets(netaddr.iprange_to_cidrs(str(s.ip), str(e.ip)))
         assert alt2 == out, "string form differs"
+        if a[0] == 4:
+            gl = netaddr.iprange_to_globs(r._start, r._end)
+            if len(gl) == 1:      # glob-shaped: the same interval through glob_to_cidrs and a re-assigned IPGlob
+                assert _nets(netaddr.glob_to_cidrs(gl[0])) == out, "glob_to_cidrs differs from iprange_to_cidrs"
+                g = netaddr.IPGlob("0.0.0.*")
+                g.cidrs()
+                g.glob = gl[0]
+                assert _nets(g.cidrs()) == out, "IPGlob.cidrs() after assigning .glob differs from iprange_to_cidrs"
+        assert _nets(r.cidrs()) == out, "IPRange.cidrs() is not repeatable"
     return out
 
 
@@ -192,6 +201,21 @@ def cases(rng, tier):
             if first_last(ver, v1, p1)[0] > first_last(ver, v2, p2)[1]:
                 v1, p1, v2, p2 = v2, p2, v1, p1
             yield ("c05_iprange_to_cidrs", [[ver, v1, p1], [ver, v2, p2]], "range_nets")
+    # start / end given as networks inside a small arena: nested, equal, adjacent and overlapping-by-nesting pairs
+    # happen constantly (start inside end, end inside start, common first or last address), host bits included
+    for ar in small:
+        ver, base, ap = ar
+        w = gens.W[ver]
+        span = 1 << (w - ap)
+        for _ in range(150 if quick else 4000):
+            p1, p2 = rng.randint(ap, w), rng.randint(ap, w)
+            v1, v2 = base + rng.randrange(span), base + rng.randrange(span)
+            if rng.random() < 0.4:      # force overlap: v2 inside the block of v1
+                h = 1 << (w - p1)
+                v2 = (v1 - v1 % h) + rng.randrange(h)
+            if first_last(ver, v1, p1)[0] > first_last(ver, v2, p2)[1]:
+                v1, p1, v2, p2 = v2, p2, v1, p1
+            yield ("c05_iprange_to_cidrs", [[ver, v1, p1], [ver, v2, p2]], "range_nets_arena")
     yield ("c05_iprange_to_cidrs", [[4, 1, 32], [6, 5, 128]], "range_mixed")
     # merges
     nm = 2500 if quick else 60000
